@@ -73,6 +73,7 @@ DEFAULT_CFG = {
     "c_drop_first": 0,        # scripted fault: the first N client datagrams are lost
     "blackout_from": None,    # scripted fault: every datagram sent at/after this time (s after start) is lost
     "blackout_until": None,   # ... and before this time (None = forever)
+    "blackouts": None,        # [(from, until), ...] seconds after start: everything sent in a window is lost
     "c_cert": None,           # name of a vlib.certs chain the CLIENT presents on CertificateRequest
     "tickets": None,          # {"client": [], "server": {}} session-ticket store shared between worlds
     "c_max_streams": None,    # (bidi, uni) stream-count limits advertised by the client
@@ -427,6 +428,10 @@ class NetSim:
             recs_all.append((d, addr))
             if self.cfg["blackout_from"] is not None and self.now - self.t0 >= self.cfg["blackout_from"] and (
                     self.cfg["blackout_until"] is None or self.now - self.t0 < self.cfg["blackout_until"]):
+                d.kind = "scripted_loss"
+                self.log("send_lost", (ep.name, d.id, len(data)))
+                continue
+            if any(a <= self.now - self.t0 < b for a, b in (self.cfg.get("blackouts") or ())):
                 d.kind = "scripted_loss"
                 self.log("send_lost", (ep.name, d.id, len(data)))
                 continue
